@@ -298,6 +298,13 @@ namespace sim
 			return;
 		}
 
+		if (m_stalled)
+		{
+			// whatever else the client sends is dropped
+			read();
+			return;
+		}
+
 		m_bytes_used += int(bytes_transferred);
 
 		int const req_len = find_request_len(m_recv_buffer.data(), m_bytes_used);
@@ -317,6 +324,10 @@ namespace sim
 		{
 			if (m_stall_handlers.find(req.path) != m_stall_handlers.end())
 			{
+				// never answered. Keep a read outstanding so that the end of
+				// this connection is noticed and the next client gets accepted
+				m_stalled = true;
+				read();
 				return;
 			}
 			// no handler found, 404
@@ -373,6 +384,7 @@ namespace sim
 	{
 		m_recv_buffer.clear();
 		m_bytes_used = 0;
+		m_stalled = false;
 
 		error_code err;
 		m_connection.close(err);
